@@ -61,6 +61,16 @@ T.update({
  'C18-b': ('C18', 'partial/idnkit/eav.c: initialized not reset when the context is destroyed in eav_setup', 'idnkit build, history setup(6531), setup(ASCII), free (double destroy) or setup(6531) again (use after destroy)'),
  'C19-b': ('C19', 'partial/idn2/eav.c: idnmsg looked up lazily, only when still NULL', 'two consecutive IDN failures with different codes on one object'),
 })
+T.update({
+ 'C01-c': ('C01', 'partial/idn2/is_6531_email.c: pure-ASCII domains with tld_check off bypass is_utf8_domain and go to is_ascii_domain', 'mode 6531, tld_check off, an ASCII domain that is a valid host name but not a valid IDNA name (ab--cd.com, xn--a.com)'),
+ 'C02-c': ('C02', 'src/is_822_local.c: after a valid fold the rest of the white-space run is skipped with isspace(), which also swallows CR', 'mode 822, quoted string with a valid fold followed (after optional blanks) by a CR that does not start a fold'),
+ 'C04-c': ('C04', 'src/is_ascii_domain.c: the root dot is discounted twice in the total-length test', 'a domain of exactly 254 name characters plus the root dot (255 bytes)'),
+ 'C05-c': ('C05', 'src/is_ipv4_ipv6.c is_ipv4: octet value tested only when a dot follows (the fourth octet is never tested)', 'a dotted quad whose LAST octet is above 255'),
+ 'C06-c': ('C06', 'src/is_6531_local.c: the pos >= 1 guard of the look-behind start[prev] dropped (prev == -1)', 'mode 6531, a local part whose first byte is a dot: reads start[-1]'),
+ 'C07-c': ('C07', 'include/eav/private_email.h check_tld: strrchr replaced by a backward scan that stops at any non-alphanumeric byte', 'ASCII mode, tld_check on, a last label containing a hyphen (all xn-- TLDs)'),
+ 'C09-c': ('C09', 'src/is_special_domain.c: counting loop uses memchr over at most 63 bytes', 'a reserved suffix preceded by a label of exactly 63 bytes'),
+ 'C16-c': ('C16', 'src/is_5321_email.c (EAV_EXTRA): lpart copied with length ch - email', 'EAV_EXTRA build, mode 5321, accepted tagged IPv6 literal: lpart = "user@[IPv6"'),
+})
 for sid, (prop, change, needs) in T.items():
     d = os.path.join(S, sid)
     if not os.path.isdir(d):
